@@ -111,6 +111,16 @@ func main() {
 	oo := hx.Create(filepath.Join(*out, "obs.out"))
 	defer func() { cf.Close(); io.Close(); oo.Close() }()
 	for _, l := range logs {
+		if *pairs {
+			// the engine keys every batchable command changes (hypothesis Hwrites of isolation_concrete)
+			ws, err := x.writeSets(l, "mem")
+			if err == nil {
+				for _, w := range ws {
+					cf.Printf("%s\n", w)
+					io.Printf("%s\tok\n", strings.SplitN(w, "\t", 2)[0])
+				}
+			}
+		}
 		cf.Printf("%s\n", l.line())
 		for _, v := range vars[l.ID] {
 			cf.Printf("%s\n", v.line())
